@@ -194,7 +194,7 @@ def run(ctx, repo):
 
     def formula(stmts):
         for st in stmts:
-            if isinstance(st, ast.Assign) and isinstance(st.value, ast.BinOp) and isinstance(st.value.op, ast.Div):
+            if isinstance(st, (ast.Assign, ast.Return)) and isinstance(st.value, ast.BinOp) and isinstance(st.value.op, ast.Div):
                 num, den = subst(st.value.left, env), subst(st.value.right, env)
                 if is_standard(num) and is_perf(den):
                     return 'timed', st
@@ -225,6 +225,18 @@ def run(ctx, repo):
                 for tup in n.iter.elts:
                     if isinstance(tup, ast.Tuple) and len(tup.elts) == 2 and isinstance(tup.elts[0], ast.Constant) and isinstance(tup.elts[1], ast.Name):
                         kinds.append((tup.elts[0].value, tup.elts[1].id))
+        if not kinds:
+            # the classifier is not a loop over a literal table: its decision list is reconstructed by probing the folded function
+            from .. import fold as _fold2
+            try:
+                tab_, _none = _fold2.probe_first_match(ek, dict(repo.folded(AGE)[0]), None)
+                kinds = [(o[1], nm) for nm, _rc, o in tab_ if o[0] == 'returns' and isinstance(o[1], str) and isinstance(nm, str) and nm in P.parsed]
+            except Exception:
+                kinds = []
+        try:
+            _menv = repo.folded(AGE)[0]
+        except Exception:
+            _menv = {}
         evp = cg.args.args[3].arg if len(cg.args.args) > 3 else 'event'
 
         def kind_of(ev):
@@ -237,10 +249,14 @@ def run(ctx, repo):
             if isinstance(t, ast.UnaryOp) and isinstance(t.op, ast.Not):
                 v = truth(t.operand, ev)
                 return None if v is None else not v
-            if isinstance(t, ast.Compare) and len(t.ops) == 1 and isinstance(t.ops[0], (ast.In, ast.NotIn)) and isinstance(t.comparators[0], (ast.List, ast.Tuple, ast.Set)):
+            if isinstance(t, ast.Compare) and len(t.ops) == 1 and isinstance(t.ops[0], (ast.In, ast.NotIn)) and (
+                    isinstance(t.comparators[0], (ast.List, ast.Tuple, ast.Set)) or (
+                        isinstance(t.comparators[0], ast.Name) and isinstance(_menv.get(t.comparators[0].id), (tuple, list, set, frozenset)))):
                 lhs = subst(t.left, env)
                 if 'event_code_to_kind(' in ast.unparse(lhs):
-                    v = kind_of(ev) in [x.value for x in t.comparators[0].elts if isinstance(x, ast.Constant)]
+                    coll = [x.value for x in t.comparators[0].elts if isinstance(x, ast.Constant)] if not isinstance(t.comparators[0], ast.Name) \
+                        else list(_menv[t.comparators[0].id])
+                    v = kind_of(ev) in coll
                     return v if isinstance(t.ops[0], ast.In) else not v
             if isinstance(t, ast.Compare) and len(t.ops) == 1 and isinstance(t.ops[0], (ast.Eq, ast.NotEq)) and isinstance(t.comparators[0], ast.Constant):
                 lhs = subst(t.left, env)
